@@ -1492,7 +1492,7 @@ impl Translator {
                 let SolvedType::Function(args, _) = self.get_ty(mono, func_node).unwrap() else {
                     unreachable!()
                 };
-                for arg_ty in args {
+                for arg_ty in &args {
                     match arg_ty {
                         SolvedType::Void => {}
                         SolvedType::Poly(_) => unreachable!(),
@@ -1502,11 +1502,11 @@ impl Translator {
                         }
                     }
                 }
-                if nargs > 1 {
+                // a variant with several fields always carries a tuple of its non-void fields,
+                // which is what variant patterns deconstruct
+                if args.len() > 1 {
                     self.emit(st, Instr::ConstructStruct(nargs));
-                }
-
-                if nargs == 0 {
+                } else if nargs == 0 {
                     self.emit(st, Instr::PushNil(1)); // TODO: optimize this away
                 }
 
@@ -2742,7 +2742,12 @@ impl Translator {
                             self.emit(st, Instr::DeconstructVariant);
                             // pop tag
                             self.emit(st, Instr::Pop);
-                            self.handle_pat_binding(inner, locals, st, mono, or_pat_decisions);
+                            if self.get_ty(mono, inner.node()).unwrap() == SolvedType::Void {
+                                // a void payload is stored as a placeholder value
+                                self.emit(st, Instr::Pop);
+                            } else {
+                                self.handle_pat_binding(inner, locals, st, mono, or_pat_decisions);
+                            }
                         } else {
                             void_case();
                         }
@@ -2754,7 +2759,12 @@ impl Translator {
                         self.emit(st, Instr::Pop);
                         let pats = self.variant_named_pats_in_order(tag, named);
                         if pats.len() == 1 {
-                            self.handle_pat_binding(&pats[0], locals, st, mono, or_pat_decisions);
+                            if self.get_ty(mono, pats[0].node()).unwrap() == SolvedType::Void {
+                                // a void payload is stored as a placeholder value
+                                self.emit(st, Instr::Pop);
+                            } else {
+                                self.handle_pat_binding(&pats[0], locals, st, mono, or_pat_decisions);
+                            }
                         } else {
                             self.emit(st, Instr::DeconstructStruct);
                             for pat in pats {
